@@ -320,9 +320,20 @@ func CrashDumpMain(dir string) {
 	}
 	// pending expirations survive the reopen: move the clock past the earliest one and wait for the sweep
 	if pending != nil {
-		vrt.SetClock(int64(pending.Exp)*int64(time.Second) - int64(time.Second))
-		vrt.Advance(7 * time.Second)
-		cl := coll(b, sgbucket.DataStoreNameImpl{Scope: strings.Split(pending.Collection, ".")[0], Collection: strings.Split(pending.Collection, ".")[1]})
+		pname := sgbucket.DataStoreNameImpl{Scope: strings.Split(pending.Collection, ".")[0], Collection: strings.Split(pending.Collection, ".")[1]}
+		if os.Getenv("CRASH_EXPIRY_MODE") == "closed" {
+			// the deadline passes while the bucket is closed: it is honoured when the bucket is opened again
+			b.Close(ctx)
+			vrt.SetClock(int64(pending.Exp)*int64(time.Second) + 6*int64(time.Second))
+			if b, err = rosmar.OpenBucket("rosmar://"+filepath.Join(dir, "b1"), "b1", rosmar.ReOpenExisting); err != nil {
+				out.Expiry = "cannot reopen: " + err.Error()
+				return
+			}
+		} else {
+			vrt.SetClock(int64(pending.Exp)*int64(time.Second) - int64(time.Second))
+			vrt.Advance(7 * time.Second)
+		}
+		cl := coll(b, pname)
 		if err := waitFor(func() bool { _, _, e := cl.GetRaw(pending.Key); return e != nil }); err != nil {
 			out.Expiry = fmt.Sprintf("document %s/%s with expiry %d was not expired after reopen", pending.Collection, pending.Key, pending.Exp)
 		} else {
@@ -395,7 +406,11 @@ func runCrashDump(exe, dir string, openMode ...string) (crashDump, error) {
 	cmd := exec.Command(exe, "crashdump", dir)
 	cmd.Env = append(os.Environ(), "GOMAXPROCS=2")
 	if len(openMode) > 0 {
-		cmd.Env = append(cmd.Env, "CRASH_OPEN_MODE="+openMode[0])
+		f := strings.Fields(openMode[0])
+		cmd.Env = append(cmd.Env, "CRASH_OPEN_MODE="+f[0])
+		if len(f) > 1 {
+			cmd.Env = append(cmd.Env, "CRASH_EXPIRY_MODE="+f[1])
+		}
 	}
 	var out, errb bytes.Buffer
 	cmd.Stdout, cmd.Stderr = &out, &errb
@@ -508,6 +523,9 @@ func RunCrash(rep *Report, history string, procs int, deadline time.Time) {
 				if n%2 == 1 && r.acks >= 1 {
 					mode = "CreateOrOpen"
 				}
+				if n%4 >= 2 {
+					mode += " closed" // pending expirations fall due while the bucket is closed
+				}
 				dump, err := runCrashDump(exe, d, mode)
 				os.Remove(d + ".log")
 				os.RemoveAll(d)
@@ -616,6 +634,9 @@ func ReplayCrash(w Witness) int {
 		mode := "ReOpenExisting"
 		if rp.CrashAt%2 == 1 && r.acks >= 1 {
 			mode = "CreateOrOpen"
+		}
+		if rp.CrashAt%4 >= 2 {
+			mode += " closed"
 		}
 		d, err := runCrashDump(exe, dir, mode)
 		fmt.Printf("run %d: history %s killed at call %d after %d acks; reopen: err=%v openErr=%q expiry=%q\n%s\n", i, rp.History, rp.CrashAt, r.acks, err, d.OpenErr, d.Expiry, d.Tables)
